@@ -2,9 +2,7 @@ package engine
 
 import (
 	"fmt"
-	"path/filepath"
 	"sort"
-	"verifsim/ref"
 
 	"verifsim/simdisk"
 )
@@ -116,45 +114,11 @@ func ioFaults(r *Run) {
 				}
 			}
 		}
-		if par1Set && t.Bool(1, 5, "foreign-writer-unsaved-entry") {
-			// the set as another PAR1 client would have written it, with an
-			// entry that is listed but not saved in the volume set (status
-			// bit 0 clear) whose file lies beside the set
-			var files []ref.Par1File
-			var datas [][]byte
-			for _, f := range w.Files {
-				files = append(files, ref.Par1File{Name: f.Name, Data: f.Data, Status: 1})
-				datas = append(datas, f.Data)
-			}
-			extra := ref.Par1File{Name: "listed-only.txt", Data: expandContent(ckText, t.Draw64(0, "extra-seed"), 10+t.Draw(200, "extra-len"), 4), Status: 0}
-			at := t.Draw(len(files)+1, "extra-pos")
-			files = append(files[:at], append([]ref.Par1File{extra}, files[at:]...)...)
-			w.Disk.Put(filepath.Join(w.Dir, extra.Name), extra.Data)
-			w.Bystanders[filepath.Join(w.Dir, extra.Name)] = extra.Data
-			for p := range w.Created {
-				if _, ok := w.Disk.Get(p); !ok {
-					continue
-				}
-				var nb []byte
-				if p == w.Index {
-					nb = ref.BuildPar1(files, 0, nil)
-				} else {
-					v := 0
-					for k := 1; k <= w.R; k++ {
-						if w.VolumePath(k) == p {
-							v = k
-						}
-					}
-					if v == 0 {
-						continue
-					}
-					nb = ref.BuildPar1(files, uint64(v), ref.Par1Parity(datas, v))
-				}
-				w.Disk.Put(p, nb)
-				w.Created[p] = nb
-			}
-			kinds = append(kinds, "unsaved-entry")
-			r.Probe("par1-listed-but-unsaved-entry")
+		if par1Set && t.Bool(1, 5, "foreign-writer") {
+			// the set as another PAR1 client would have written it (comment,
+			// entries listed but not saved in the volume set)
+			w.RewriteAsForeignPar1(r)
+			kinds = append(kinds, "foreign-writer")
 		}
 		sort.Strings(kinds)
 		stateClass = fmt.Sprint(uniq(kinds))
